@@ -6,7 +6,7 @@ from . import c06
 MANIFEST = dict(
    technique="Translation validation per generated program (gozodgen run on the rule matrix in a temp dir; go/parser + `go build` of every emitted file; T{}.Schema().Parse vs FromStruct[T]().Parse on boundary values) + Lean 4 theorems over the regenerated tables (emitted method chains vs observed FromStruct behaviour, `decide`) and about a transcription of the generator's string-literal formatting; round 2: Lean transcription of gozodgen's OWN tag splitter / rule parser (cmd/gozodgen/analyzer.go) proved equal to the pkg/tagparser model on a decidable region (witnesses outside), tied by a differential run through the real functions (go-build overlay hook), a Lean transcription of the field emitter checked textually against every emitted expression, and wide programs (several files, many structs, ~17 fields per struct, repeated tag texts, all rule orders, tricky parameters) compiled and run against FromStruct",
    text="Lean: c13_regex_quote (the regex escaping round-trips through a Go string literal for every pattern without newline), c13_quote_partial / c13_quote_full_false (`default=` parameters are emitted unescaped: a quote or backslash breaks the literal), c13_equiv_partial / c13_typechecks_partial over the regenerated Gen.genTable x Gen.tagTable (`decide`), with the excluded cells being listed known findings and witness theorems; c13_split_partial / c13_parse_partial (genSplit = tagparser.splitParts, genParseTag = tagparser.parseTag on splitRegion / parseRegion, all strings), c13_split_witnesses / c13_parse_witnesses (the full statements are false), c13_emit_reads_tagparser. Tie: every run regenerates both tables from the working tree, compiles the generated programs against the library and compares the two schemas on every probe; the chain semantics used in Lean (denote) is validated against the compiled generated code on every probe.",
-   note="PARTIAL: 'the written file is valid Go that type-checks' is decided by go/parser and `go build -gcflags=-e` in the tie, not proved in Lean. The matrix is finite (C06 matrix: documented rules x field types x both orders of two rules x boundary probes) plus sampled parameter strings; behaviour is compared on structs grouping the type-checking cells (field expressions checked textually identical to the one-struct-per-cell output) and on a seeded sample compiled one struct at a time. Trusted: Lean kernel, axioms propext/Classical.choice/Quot.sound, the Go toolchain, harness and comparer. Go string-literal reader in Lean models one-character escapes only.",
+   note="Round 4: Gen/MethodTable.lean (reflection over the library: every constructor gozodgen names, every schema type reachable through the methods it can emit, ALL their methods) + GenTyped.wellTyped: c13_welltyped_partial proves every expression emitted for a scalar field (any rule list of the region) well typed against the WHOLE regenerated table (c13_table_closed), witnesses outside; the typing judgement and the emitted text are compared with go build / the written file on every matrix cell and ~450 one-struct programs over every field kind (texpr). Termination: GenTerm (typesToReflectType over named-type environments), c13_term_acyclic / c13_term_struct_graphs, c13_term_full_false (`type A []A`), term ops run gozodgen on such packages. PARTIAL: 'the written file is valid Go that type-checks' is DECIDED by go/parser and `go build -gcflags=-e` in the tie; the Lean judgement covers constructor/method existence, arity, inferability and constant representability, not full Go typing. The matrix is finite (C06 matrix: documented rules x field types x both orders of two rules x boundary probes) plus sampled parameter strings; behaviour is compared on structs grouping the type-checking cells (field expressions checked textually identical to the one-struct-per-cell output) and on a seeded sample compiled one struct at a time. Trusted: Lean kernel, axioms propext/Classical.choice/Quot.sound, the Go toolchain, harness and comparer. Go string-literal reader in Lean models one-character escapes only.",
    design="DESIGN.md §5 C13")
 
 MODULES = ["Gozod.Proofs.C13", "Gozod.Proofs.C13Split", "Gozod.Proofs.C13Typed", "Gozod.Proofs.C13Term"]
@@ -348,6 +348,12 @@ def run(res):
         return _run(res)
 
 def _run(res):
+    # 0. structure fingerprints of the transcribed functions (aim only: every one of them is reached by the split / texpr / term ops of this run)
+    changed = C.fingerprint(res, "C13")
+    for k, lean, kind, detail in changed:
+        if kind == "missing":
+            C.tie_broken(res, "fingerprint " + k, "the Go function mirrored by %s is gone or renamed" % lean); return res.finish()
+        res.notes.append("modelled function edited since the expectation was recorded: %s [%s %s] (Lean: %s) — exercised by this run's correspondence ops" % (k, kind, detail, lean))
     # 1. regenerate Gen/TagTable.lean (FromStruct behaviour) with the C06 matrix harness
     blocks, err = c06.build_matrix(C.REPO)
     _ph('matrix built')
@@ -498,7 +504,13 @@ def _run(res):
         "%d (field, probe) verdict pairs." % (sum(v for k, v in h.items() if k.startswith("split:")), h.get("split:same-rules", 0), h.get("split:different-rules", 0),
         h.get("split:err:param", 0) + h.get("split:err:name", 0), sum(v for k, v in h.items() if k.startswith("wcompile:")), sum(v for k, v in h.items() if k.startswith("wsame:")),
         sum(v for k, v in h.items() if k.startswith("wcell:"))))
+    res.coverage["rule"] += (" Round 4: %d texpr cases (every matrix cell + one-struct programs over every field kind the writer distinguishes: emitted text and compile status vs "
+        "GenEmit.emitChain / GenTyped.wellTyped over the regenerated method table; status histogram %s); %d termination cases (circular struct graphs, self-referential named types, "
+        "deep nesting; %s)." % (sum(v for k, v in h.items() if k.startswith("texpr:")), {k[6:]: v for k, v in h.items() if k.startswith("texpr:")},
+        sum(v for k, v in h.items() if k.startswith("term:")), {k[5:]: v for k, v in h.items() if k.startswith("term:")}))
     res.assumptions += [
+        "the C06 matrix observations are reused from .build/cache/c13-tagtable/<digest> when the digest of every input of that run (library sources outside cmd/, C06 harness package, hx, go.mod/go.sum, docs/tags.md, Go version) is unchanged",
+        "Gen/MethodTable.lean: reflection (reflect.Type.Method, NumIn, IsVariadic, Implements) over the library linked into the harness; generic constructors are observed on one instantiation; inferability of type parameters read from the func declarations by go/ast",
         "the overlaid hook file (harness/cmd/c13/wide.go: hookSrc) only calls smartSplitTagRules / NewStructAnalyzer().parseTagRules and prints their results",
         "documented meaning of a 2-3-rule tag on a probe (vlib/c13.py: doc_verdict; regex through Python re) is used only to NAME the side that is wrong in a failure-class key",
         "type-checking is decided by go/parser and `go build -gcflags=-e` (Go toolchain trusted), not in Lean",
